@@ -520,10 +520,29 @@ def run_widths(ctx, kdense):
 # ----------------------------------------------------------------------------------------------
 # tie: purification vector / in-circuit plan as produced by the REAL code
 # ----------------------------------------------------------------------------------------------
-def _tie_purification(ctx, n, k, states, probs, reset, stage, modes=("classical", "incircuit"), form=""):
-    """`states` / `probs` go to the REAL code in the form given (list / tuple / ndarray of any dtype); the Lean op gets the
-    same numbers as doubles."""
+FLAG_TYPES = {"bool": bool, "npbool": np.bool_, "int": int}     # the types a `reset` / `classical` flag is handed over in
+
+
+def _mixed_gate(states, initializer, probs, classical, reset, flag="bool", pos=False, **kw):
+    """MixedInitialize with `classical` / `reset` (canonical Python bools here) converted to the type `flag` names and passed
+    by keyword or - `pos` - with every constructor argument positional (params, initializer, opt_params, probabilities,
+    label, reset, classical)."""
     from qclib.state_preparation.mixed import MixedInitialize
+    from qclib.state_preparation import LowRankInitialize
+    f = FLAG_TYPES[flag]
+    if pos:
+        return MixedInitialize(states, initializer or LowRankInitialize, kw.get("opt_params"), probs, kw.get("label"),
+                               f(reset), f(classical))
+    if initializer is not None:
+        kw["initializer"] = initializer
+    return MixedInitialize(states, probabilities=probs, classical=f(classical), reset=f(reset), **kw)
+
+
+def _tie_purification(ctx, n, k, states, probs, reset, stage, modes=("classical", "incircuit"), form="", flag="bool", pos=False):
+    """`states` / `probs` go to the REAL code in the form given (list / tuple / ndarray of any dtype); the Lean op gets the
+    same numbers as doubles.  `flag` / `pos`: type and position of the two boolean options (the op keeps the Python bool)."""
+    def MixedInitialize(states, initializer, probabilities, classical, reset):
+        return _mixed_gate(states, initializer, probabilities, classical, reset, flag, pos)
     Rec = recorder()
     eff = [float(x) for x in probs] if probs is not None else [1 / k] * k
     a = clog2(k)
@@ -566,13 +585,14 @@ def _tie_purification(ctx, n, k, states, probs, reset, stage, modes=("classical"
                 lines, label=f"incirc n={n} k={k} lenP={len(eff)} reset={reset}{form}")
 
 
-def tie_purification(ctx, n, k, states, probs, reset=True, modes=("classical", "incircuit"), form="", rep=None):
+def tie_purification(ctx, n, k, states, probs, reset=True, modes=("classical", "incircuit"), form="", rep=None, flag="bool",
+                     pos=False):
     """Dump what the REAL code hands to its sub-initializer.  The ensembles generated here are valid
     (except deliberately short probability lists), so an exception out of qclib is a violation of
     the property ("construction never fails"), not a harness error."""
     stage = []
     try:
-        _tie_purification(ctx, n, k, states, probs, reset, stage, modes, form)
+        _tie_purification(ctx, n, k, states, probs, reset, stage, modes, form, flag, pos)
     except Exception as e:  # noqa: BLE001
         mode = stage[-1] if stage else "classical"
         if rep is None:
@@ -1193,6 +1213,10 @@ class _DivDegenerate(Exception):
     pass
 
 
+class _ResetFlag(Exception):
+    pass
+
+
 def _lr1(vec, partition=None):
     """best rank-1 (product) approximation of `vec` across the bipartition (tensor axes in `partition` | the rest),
     normalised: what LowRankInitialize documents for opt_params={'lr': 1}.  Written from the definition."""
@@ -1277,6 +1301,12 @@ def _div_key(c):
         key += f":q={h['as']}" + ("" if h["order"] is None else "[" + ",".join(map(str, h["order"])) + f"]of{sum(h['regs'])}")
     if c.get("label"):
         key += ":label"
+    elif c.get("label") is not None:
+        key += ":label=''"
+    if c.get("label") == "":
+        key = "flagforms:" + key
+    if c.get("flagform", "bool") != "bool" or c.get("flagpos"):
+        key = "flagforms:" + key + f":flags={c.get('flagform', 'bool')}{'/positional' if c.get('flagpos') else ''}"
     return key + f":reset={int(c.get('reset', True))}"
 
 
@@ -1391,13 +1421,22 @@ def _div_case(ctx, c, count=True):
         kw["probabilities"] = probs
     if c.get("optform", "omitted") != "omitted":
         kw["opt_params"] = opt
-    if entry == "ctor" and c.get("label"):
+    if entry == "ctor" and c.get("label") is not None:
         kw["label"] = c["label"]
+    fform, fpos = c.get("flagform", "bool"), bool(c.get("flagpos"))
+    if count and (fform != "bool" or fpos):
+        ctx.count(f"flagforms:reset:{fform}:{bool(c['reset'])}:{'positional' if fpos else 'keyword'}")
+        ctx.count(f"flagforms:classical:{fform}:{mode == 'classical'}:{'positional' if fpos else 'keyword'}")
 
     def attempt():
         if entry == "ctor":
-            g = MixedInitialize(ens, classical=(mode == "classical"), reset=c["reset"], **kw)
+            g = _mixed_gate(ens, None, kw.get("probabilities"), mode == "classical", c["reset"], fform, fpos,
+                            **{x: y for x, y in kw.items() if x != "probabilities"}) if (fform != "bool" or fpos) else \
+                MixedInitialize(ens, classical=(mode == "classical"), reset=c["reset"], **kw)
             circ = g.definition
+            has_reset = any(i.operation.name == "reset" for i in circ.data)
+            if has_reset != (bool(c["reset"]) and a > 0):
+                raise _ResetFlag(f"reset={c['reset']!r} ({fform}) but the definition has_reset={has_reset} (aux qubits: {a})")
             data = list(range(a, a + n))
             wd = g.num_qubits
         else:
@@ -1414,6 +1453,9 @@ def _div_case(ctx, c, count=True):
         return g, wd, r_, e_
     try:
         gate, width, rho, e_rest = attempt()
+    except _ResetFlag as e:
+        ctx.fail(key + ":reset-flag", str(e), c)
+        return None
     except Exception as e:  # noqa: BLE001 -- every input generated here is a valid ensemble in an ordinary Python form
         if c["pkind"] == "f32-inexact" and isinstance(e, ValueError):
             # not a probability vector to 1e-9: a clean ValueError (validation or the sub-initializer's norm check) is a rejection
@@ -1442,7 +1484,7 @@ def _div_case(ctx, c, count=True):
                      f"| = {err:.3e}", dict(c, err=err))
     elif (c["reset"] or entry == "static") and e_rest > 1e-7:
         ctx.fail(key + ":other-qubits", f"auxiliary / untouched qubits are not |0> afterwards ({e_rest:.3e})", c)
-    elif gate is not None and gate.label != (c.get("label") or "Mixed"):
+    elif gate is not None and gate.label != ("Mixed" if c.get("label") is None else c["label"]):
         ctx.fail(key + ":label", f"label {gate.label!r}, requested {c.get('label')!r}", c)
     else:
         if lr1:
@@ -1452,7 +1494,9 @@ def _div_case(ctx, c, count=True):
     # tie: what the real code hands to its sub-initializer for this form vs the Lean model (only when the oracle got through)
     if c.get("tie") and entry == "ctor" and not lr1:
         tie_purification(ctx, n, k, ens, probs, reset=c["reset"], modes=(mode,),
-                         form=f" [{c['skind']}/{c['sform']} p={c['pkind']}/{c['pform']}]", rep=c)
+                         form=f" [{c['skind']}/{c['sform']} p={c['pkind']}/{c['pform']}]" +
+                              (f" flags={fform}{'/positional' if fpos else ''}" if (fform != "bool" or fpos) else ""),
+                         rep=c, flag=fform, pos=fpos)
     return gate
 
 
@@ -1949,12 +1993,86 @@ def _diversity_precision_probes(ctx):
                                [float(x) for x in probs], "precision-probe", "list", reset=reset), count=False)
 
 
+def _diversity_flag_forms(ctx):
+    """flag-form pass.  Options of MixedInitialize(params, initializer, opt_params, probabilities, label, reset, classical)
+    and of the static initialize(q_circuit, ensemble, qubits, opt_params, probabilities):
+      reset, classical (bool)   True and False each as numpy.bool_ and int 1 / 0 (Python bools: every other case), by keyword
+                                and with all seven arguments positional, both modes, a = ceil(log2 k) = 0 (k = 1: reset has
+                                nothing to act on), 1, 2, 3 auxiliary qubits, n = 1 (classical only), 2, 3.  Oracle: reduced
+                                state, auxiliaries |0> after a reset, and the reset instructions are there iff the flag is
+                                truthy and a > 0.  Tie: what the sub-initializer is handed (purification vector / in-circuit
+                                plan) and the wrap lines, with the same flag form, vs the model asked with the Python bools.
+      probabilities             a VALID vector may contain zeros: 0.0, -0.0, int 0 (one-hot int lists / int64 arrays),
+                                np.float64(0) / np.float32(0) entries, first / middle / last position, every container,
+                                both modes, constructor and static helper
+      label                     '' (a valid, falsy label) must be kept, not replaced by the default
+      opt_params                None / {} are in DIV_OPTS (_diversity_call_forms)"""
+    r = ctx.nprng()
+    j = 0
+    # (A) type / position of the two flags
+    for (n, k) in ((1, 1), (1, 2), (2, 1), (2, 2), (2, 3), (3, 4), (2, 5)):
+        S = _div_states(r, n, k, "complex")
+        for mode in _div_modes(n, k):
+            for reset in (True, False):
+                for fform in ("npbool", "int"):
+                    j += 1
+                    pkind = ["random", "omitted", "dyadic"][j % 3]
+                    P = [1 / k] * k if pkind == "omitted" else _div_pvec(r, k, pkind)
+                    c = _div_mk("ctor", mode, n, k, S, "complex", ["ndarray-list-c128", "pyseq-list-complex"][j % 2], P,
+                                "uniform" if pkind == "omitted" else pkind, "omitted" if pkind == "omitted" else ["list", "ndarray-f64"][j % 2],
+                                reset=reset, tie=(n, k) in ((1, 2), (2, 2), (2, 3), (3, 4)))
+                    c["flagform"], c["flagpos"] = fform, ((j + (j - 1) // 4) % 2 == 0)
+                    _div_case(ctx, c)
+        # the Python singletons with every argument positional
+        j += 1
+        c = _div_mk("ctor", _div_modes(n, k)[-1], n, k, S, "complex", "ndarray-list-c128", _div_pvec(r, k, "random"), "random", "list",
+                    reset=bool(j % 2), tie=(n, k) == (2, 3))
+        c["flagform"], c["flagpos"] = "bool", True
+        _div_case(ctx, c)
+    # (B) zeros inside a valid probability vector, in every numeric form
+    for (n, k) in ((1, 2), (2, 2), (2, 3), (2, 5)):
+        S = _div_states(r, n, k, "complex")
+        w = n + clog2(k)
+        for pkind, pforms in (("onehot-first", ["list-int", "ndarray-int64", "list", "list-npfloat32"]),
+                              ("onehot-last", ["tuple-int", "list-npfloat64", "ndarray-f32"]),
+                              ("onehot-middle", ["list-int", "ndarray-f64"]),
+                              ("zero-first", ["list", "list-npfloat64"]), ("zero-middle", ["tuple", "ndarray-f64"]),
+                              ("zero-last", ["list-npfloat64", "list"]),
+                              ("zero-dyadic-first", ["list-npfloat32", "ndarray-f32"]), ("zero-dyadic-last", ["ndarray-f32", "tuple"]),
+                              ("negzero-first", ["list", "ndarray-f64"]), ("negzero-last", ["tuple", "list-npfloat64"])):
+            if pkind.startswith("negzero-"):
+                P = _div_pvec(r, k, "zero-" + pkind[8:])
+                P = [-0.0 if x == 0 else x for x in P] if P else None
+            else:
+                P = _div_pvec(r, k, pkind)
+            if P is None:
+                continue
+            for pform in pforms:
+                j += 1
+                for mode in _div_modes(n, k)[:: -1 if j % 2 else 1][:1 if k == 5 else 2]:
+                    ctx.count(f"flagforms:probabilities-zero:{pkind}:{pform}:ctor/{mode}")
+                    _div_case(ctx, _div_mk("ctor", mode, n, k, S, "complex", "ndarray-list-c128", P, pkind, pform,
+                                           reset=(j % 2 == 0), tie=(n, k) in ((2, 2), (2, 3)) and "f32" not in pform and "float32" not in pform))
+                if j % 2:
+                    ctx.count(f"flagforms:probabilities-zero:{pkind}:{pform}:static/classical")
+                    _div_case(ctx, _div_mk("static", "classical", n, k, S, "complex", "ndarray-list-c128", P, pkind, pform,
+                                           host=_div_host_spec(r, w, 1, "list-int", 1)))
+    # (B) the empty label
+    for (n, k) in ((1, 2), (2, 3)):
+        S = _div_states(r, n, k, "complex")
+        for mode in _div_modes(n, k):
+            ctx.count("flagforms:label:empty-string")
+            _div_case(ctx, _div_mk("ctor", mode, n, k, S, "complex", "ndarray-list-c128", _div_pvec(r, k, "random"), "random", "list",
+                                   reset=False, label=""))
+
+
 def run_diversity(ctx):
     _diversity_precision_probes(ctx)
     _diversity_element_types(ctx)
     _diversity_scale(ctx)
     _diversity_phase(ctx)
     _diversity_call_forms(ctx)
+    _diversity_flag_forms(ctx)
     _diversity_sizes(ctx)
     _diversity_reject(ctx)
 
